@@ -535,7 +535,7 @@ def main(chk, tier, seed):
     chk.assumptions = ["valid API use per the reference model in enabled_ops() (own computations only, replicas of known computations, "
                        "no mix of callback and callback-less subscriptions on one item)",
                        "per-channel FIFO delivery (single discovery priority)"]
-    n = 6000 if tier == "quick" else 50000
+    n = 6000 if tier == "quick" else 300000
     common.run_chunked(chk, "c20", n, nchunks=16 if tier == "quick" else 64, timeout=3000)
     chk.inconclusive_if(chk.counters.get("callback_events", 0) < 200, "too few callback events")
 
